@@ -1042,6 +1042,13 @@ func (c *Client) DialToSMTPClientWithContext(ctxDial context.Context) (*smtp.Cli
 		return nil, err
 	}
 
+	// The context deadline only covers the dial function. Everything that follows (greeting,
+	// EHLO, STARTTLS, AUTH) reads from the connection and must be bounded as well
+	if err = connection.SetDeadline(time.Now().Add(c.connTimeout)); err != nil {
+		_ = connection.Close()
+		return nil, fmt.Errorf("failed to set connection deadline: %w", err)
+	}
+
 	client, err := smtp.NewClient(connection, c.host)
 	if err != nil {
 		return nil, err
@@ -1071,6 +1078,13 @@ func (c *Client) DialToSMTPClientWithContext(ctxDial context.Context) (*smtp.Cli
 	if err = c.auth(client, isEncrypted); err != nil {
 		_ = client.Close()
 		return nil, err
+	}
+
+	// The dial phase is over, an idle connection carries no deadline. Each operation on the
+	// connection sets its own deadline (see checkConn)
+	if err = connection.SetDeadline(time.Time{}); err != nil {
+		_ = client.Close()
+		return nil, fmt.Errorf("failed to reset connection deadline: %w", err)
 	}
 
 	return client, nil
